@@ -1,0 +1,16 @@
+//go:build verif
+// +build verif
+
+package pipe
+
+// VC14CleanPartitions runs cleanPartitions() of the pipe `name`; false if there is no such pipe.
+func (s *Service) VC14CleanPartitions(name string) bool {
+	s.lock.Lock()
+	pp, found := s.ppipes[name]
+	s.lock.Unlock()
+	if !found {
+		return false
+	}
+	pp.cleanPartitions()
+	return true
+}
